@@ -10,7 +10,7 @@ WALL_CAP = {'quick': 45, 'thorough': 1500}
 BLOCK = 200
 RULE = ('runs = seeded READ sessions on a Model whose solver holds results (solved from a seeded block, or filled by '
         'AppendValue histories, in the main / step-trace / steady-state holders): GetTimeSeries with every cutoff '
-        '(argument and TimeSeriesCutoff), suppression flag and series group, caller-side mutation of the returned '
+        '(argument and TimeSeriesCutoff), suppression flag, series group and Model.MaxTime (incl. histories longer than the default 100), caller-side mutation of the returned '
         'list (append/pop/overwrite/clear), repeated GenerateCSVtext, and BaseSolver.CreateCsvString twice on one '
         'object; oracle after every op = return value equals the documented slice of an immutable reference copy, '
         'stored series still equal the copy, repeated renderings byte-identical. distinct = distinct op-shape '
@@ -35,7 +35,7 @@ def generate(seed, tier):
         names = [v for v, _ in block['eqs']] + ['k', 't']
         groups = ['main']
     else:
-        T = rng.randint(0, 6)
+        T = rng.randint(0, 6) if rng.random() < 0.92 else rng.randint(99, 210)
         names = ['k', 't'] + ['v%d' % i for i in range(rng.randint(1, 4))]
         data = {}
         for g in GROUPS:
@@ -48,7 +48,10 @@ def generate(seed, tier):
     has_base = False
     for _ in range(n_ops):
         r = rng.random()
-        if r < 0.12:
+        if r < 0.04:
+            # the horizon written into the *next* generated equation block; it says nothing about what is stored
+            ops.append({'op': 'model_maxtime', 'value': rng.choice([0, 1, 2, max(T - 1, 0), T, T + 3, 100])})
+        elif r < 0.12:
             ops.append({'op': 'flag', 'cutoff': rng.choice([None, None, 0, 1, 2, T, T + 2]), 'suppress': rng.random() < 0.5})
         elif r < 0.22:
             ops.append({'op': 'csv', 'fmt': rng.choice(FMTS)})
@@ -152,6 +155,9 @@ def execute(case):
             model.TimeSeriesCutoff = o['cutoff']
             model.TimeSeriesSupressTimeZero = o['suppress']
             flags = {'cutoff': o['cutoff'], 'suppress': o['suppress']}
+        elif op == 'model_maxtime':
+            model.MaxTime = o['value']
+            stats['probes']['model_maxtime_changed_after_results_stored'] = 1
         elif op == 'append':
             holders(model)[o['group']].AppendValue(o['series'], o['value'])
             ref[o['group']].setdefault(o['series'], []).append(o['value'])
